@@ -145,7 +145,7 @@ def admissible (q : List Obs) (o : Obs) : Bool :=
   | some id, some id' => id == id'
   | _, _ => true
 
-def window : Nat := 10
+def window : Nat := 100000
 
 /-- (event, rest of the queue without it) for the events that may be taken next -/
 def choices : List Obs → List Nat → Nat → List Obs → List (Obs × List Obs)
